@@ -587,6 +587,15 @@ let rec nth n l default =
             | [] -> default
             | _ :: t -> nth m t default)
 
+(** val last : 'a1 list -> 'a1 -> 'a1 **)
+
+let rec last l d =
+  match l with
+  | [] -> d
+  | a :: l0 -> (match l0 with
+                | [] -> a
+                | _ :: _ -> last l0 d)
+
 (** val map : ('a1 -> 'a2) -> 'a1 list -> 'a2 list **)
 
 let rec map f = function
@@ -830,6 +839,10 @@ type stmt =
 | SCumsum of var * var
 | SArrDiv of site * var * var * var
 | SArrDivSc of var * var * expr
+| SArrScale of var * expr
+| SShiftLeft of var
+| SColSums of var * var
+| SColUpd of site * var * expr * binop * var option * expr
 | SCall of nat * target list * char list * arg list
 | SSeq of stmt * stmt
 | SIf of nat * expr * stmt * stmt
@@ -1316,6 +1329,35 @@ let div_cells a b =
 let coerce_cells dt d =
   map (coerce dt) d
 
+(** val scale_cells : dtype -> sval -> sval list -> sval list **)
+
+let scale_cells dt v d =
+  map (fun c -> coerce dt (eval_binop Mul c v)) d
+
+(** val shift_left : sval list -> sval list **)
+
+let shift_left d = match d with
+| [] -> []
+| _ :: r -> app r ((last d dflt) :: [])
+
+(** val col_sums : dtype -> z -> z -> sval list -> sval list **)
+
+let col_sums dt n c d =
+  map (fun j -> sum_cells dt (column n c d j)) (zrange Z0 (Z.to_nat c))
+
+(** val col_upd :
+    dtype -> z -> z -> z -> sval list -> binop -> sval list option -> sval ->
+    sval list **)
+
+let col_upd dt n c j d op h v =
+  set_col n c j d
+    (map (fun i ->
+      coerce dt
+        (eval_binop op (nthZ d (Z.add (Z.mul i c) j))
+          (match h with
+           | Some hd -> eval_binop Mul (nthZ hd i) v
+           | None -> v))) (zrange Z0 (Z.to_nat n)))
+
 type store = (var * value) list
 
 (** val get : store -> var -> value **)
@@ -1676,6 +1718,55 @@ let rec exec env fuel c st =
                     (match ra with
                      | A1 (_, _) -> A1 (DFlt, d)
                      | A2 (_, r, c0, _) -> A2 (DFlt, r, c0, d)))))) with
+        | Ok st' -> Normal st'
+        | Er e0 -> Err e0)
+     | SArrScale (a, e) ->
+       (match bind (get_arr st a) (fun ra ->
+                bind (eval e st) (fun v -> Ok
+                  (set st a (Ar
+                    (match ra with
+                     | A1 (dt, d) -> A1 (dt, (scale_cells dt v d))
+                     | A2 (dt, r, c0, d) ->
+                       A2 (dt, r, c0, (scale_cells dt v d))))))) with
+        | Ok st' -> Normal st'
+        | Er e0 -> Err e0)
+     | SShiftLeft a ->
+       (match bind (get_arr st a) (fun ra ->
+                match ra with
+                | A1 (dt, d) -> Ok (set st a (Ar (A1 (dt, (shift_left d)))))
+                | A2 (_, _, _, _) -> Er (Uninit a)) with
+        | Ok st' -> Normal st'
+        | Er e -> Err e)
+     | SColSums (x, a) ->
+       (match bind (get_arr st a) (fun ra ->
+                match ra with
+                | A1 (_, _) -> Er (Uninit a)
+                | A2 (dt, n, c0, d) ->
+                  Ok (set st x (Ar (A1 (dt, (col_sums dt n c0 d)))))) with
+        | Ok st' -> Normal st'
+        | Er e -> Err e)
+     | SColUpd (s, a, j, op, h, e) ->
+       (match bind (get_arr st a) (fun ra ->
+                bind (eval j st) (fun vj ->
+                  bind (eval e st) (fun v ->
+                    match ra with
+                    | A1 (_, _) -> Er (OOB s)
+                    | A2 (dt, n, c0, d) ->
+                      bind (chk (in_range (to_int vj) c0) s) (fun _ ->
+                        match h with
+                        | Some hv ->
+                          bind (get_arr st hv) (fun rh ->
+                            match rh with
+                            | A1 (_, hd) ->
+                              bind (chk (Z.eqb (zlen hd) n) s) (fun _ -> Ok
+                                (set st a (Ar (A2 (dt, n, c0,
+                                  (col_upd dt n c0 (to_int vj) d op (Some hd)
+                                    v))))))
+                            | A2 (_, _, _, _) -> Er (OOB s))
+                        | None ->
+                          Ok
+                            (set st a (Ar (A2 (dt, n, c0,
+                              (col_upd dt n c0 (to_int vj) d op None v))))))))) with
         | Ok st' -> Normal st'
         | Er e0 -> Err e0)
      | SCall (_, ts, fn, args) ->
@@ -2293,18 +2384,19 @@ let k_jitthreshold =
           XH)))))) :: [])))) :: ((SIf ((S (S (S (S (S (S O)))))), (ERead1 ((S
         (S O)), ('i'::('x'::[])), (EVar ('t'::[])))),
         (seq ((SAssign (('f'::('i'::('r'::('s'::('t'::[]))))), (EOr ((ECmp
-          (Eq0, (EVar ('t'::[])), (EInt Z0))), (ECmp (Lt0, (ERead1 ((S (S (S
-          O))),
+          (Eq0, (EVar ('t'::[])), (EInt Z0))), (EAnd ((ECmp (Gt0, (EVar
+          ('m'::[])), (EInt Z0))), (ECmp (Lt0, (ERead1 ((S (S (S O))),
           ('t'::('i'::('m'::('e'::('_'::('a'::('r'::('r'::('a'::('y'::[])))))))))),
           (EBin (Sub, (EVar ('t'::[])), (EInt (Zpos XH)))))), (ERead1 ((S (S
           (S (S O)))), ('s'::('t'::('a'::('r'::('t'::('s'::[])))))), (EVar
-          ('k'::[])))))))))) :: ((SAssign (('l'::('a'::('s'::('t'::[])))),
+          ('k'::[])))))))))))) :: ((SAssign (('l'::('a'::('s'::('t'::[])))),
           (EOr ((ECmp (Eq0, (EVar ('t'::[])), (EBin (Sub, (EVar ('n'::[])),
-          (EInt (Zpos XH)))))), (ECmp (Gt0, (ERead1 ((S (S (S (S (S O))))),
+          (EInt (Zpos XH)))))), (EAnd ((ECmp (Gt0, (EVar ('m'::[])), (EInt
+          Z0))), (ECmp (Gt0, (ERead1 ((S (S (S (S (S O))))),
           ('t'::('i'::('m'::('e'::('_'::('a'::('r'::('r'::('a'::('y'::[])))))))))),
           (EBin (Add, (EVar ('t'::[])), (EInt (Zpos XH)))))), (ERead1 ((S (S
           (S (S (S (S O)))))), ('e'::('n'::('d'::('s'::[])))), (EVar
-          ('k'::[])))))))))) :: ((SIf ((S (S (S (S (S (S (S O))))))), (EOr
+          ('k'::[])))))))))))) :: ((SIf ((S (S (S (S (S (S (S O))))))), (EOr
           ((EVar ('f'::('i'::('r'::('s'::('t'::[])))))), (ENot (ERead1 ((S (S
           (S (S (S (S (S O))))))), ('i'::('x'::[])), (EBin (Sub, (EVar
           ('t'::[])), (EInt (Zpos XH))))))))),
@@ -2326,8 +2418,9 @@ let k_jitthreshold =
               ('t'::('i'::('m'::('e'::('_'::('a'::('r'::('r'::('a'::('y'::[])))))))))),
               (EBin (Sub, (EVar ('t'::[])), (EInt (Zpos XH)))))))), (EInt
               (Zpos (XO XH))))))))) :: [])),
-            (seq ((SIf ((S (S (S (S (S (S (S (S (S O))))))))), (EVar
-              ('l'::('a'::('s'::('t'::[]))))),
+            (seq ((SIf ((S (S (S (S (S (S (S (S (S O))))))))), (EAnd ((EVar
+              ('l'::('a'::('s'::('t'::[]))))), (ECmp (Gt0, (EVar ('m'::[])),
+              (EInt Z0))))),
               (seq ((SStore1 ((S (S (S (S (S (S (S (S (S (S (S (S (S (S
                 O)))))))))))))),
                 ('n'::('e'::('w'::('_'::('s'::('t'::('a'::('r'::('t'::[]))))))))),
@@ -2368,7 +2461,8 @@ let k_jitthreshold =
               ('t'::('i'::('m'::('e'::('_'::('a'::('r'::('r'::('a'::('y'::[])))))))))),
               (EVar ('t'::[])))))), (EInt (Zpos (XO XH))))))))) :: [])),
             (seq ((SIf ((S (S (S (S (S (S (S (S (S (S (S (S O)))))))))))),
-              (EVar ('f'::('i'::('r'::('s'::('t'::[])))))),
+              (EAnd ((EVar ('f'::('i'::('r'::('s'::('t'::[])))))), (ECmp
+              (Gt0, (EVar ('m'::[])), (EInt Z0))))),
               (seq ((SStore1 ((S (S (S (S (S (S (S (S (S (S (S (S (S (S (S (S
                 (S (S (S (S (S (S (S (S O)))))))))))))))))))))))),
                 ('n'::('e'::('w'::('_'::('e'::('n'::('d'::[]))))))), (EVar
@@ -3289,6 +3383,216 @@ let k__jitcontinuous_perievent =
       XH)))) :: ((AVar
       ('s'::('t'::('a'::('r'::('t'::('_'::('w'::[])))))))) :: []))))) :: [])))))))))))) }
 
+(** val k__jitperievent_trigger_average : func **)
+
+let k__jitperievent_trigger_average =
+  { fname =
+    ('_'::('j'::('i'::('t'::('p'::('e'::('r'::('i'::('e'::('v'::('e'::('n'::('t'::('_'::('t'::('r'::('i'::('g'::('g'::('e'::('r'::('_'::('a'::('v'::('e'::('r'::('a'::('g'::('e'::[])))))))))))))))))))))))))))));
+    fparams =
+    (('t'::('i'::('m'::('e'::('_'::('a'::('r'::('r'::('a'::('y'::[])))))))))) :: (('c'::('o'::('u'::('n'::('t'::('_'::('a'::('r'::('r'::('a'::('y'::[]))))))))))) :: (('t'::('i'::('m'::('e'::('_'::('t'::('a'::('r'::('g'::('e'::('t'::('_'::('a'::('r'::('r'::('a'::('y'::[]))))))))))))))))) :: (('d'::('a'::('t'::('a'::('_'::('t'::('a'::('r'::('g'::('e'::('t'::('_'::('a'::('r'::('r'::('a'::('y'::[]))))))))))))))))) :: (('s'::('t'::('a'::('r'::('t'::('s'::[])))))) :: (('e'::('n'::('d'::('s'::[])))) :: (('w'::('i'::('n'::('d'::('o'::('w'::('s'::[]))))))) :: (('b'::('i'::('n'::('s'::('i'::('z'::('e'::[]))))))) :: []))))))));
+    flocals =
+    (('T'::[]) :: (('N'::[]) :: (('N'::('_'::('e'::('p'::('o'::('c'::('h'::('s'::[])))))))) :: (('i'::('d'::('x'::[]))) :: (('c'::('o'::('u'::('n'::('t'::[]))))) :: (('m'::('a'::('x'::('_'::('c'::('o'::('u'::('n'::('t'::[]))))))))) :: (('n'::('e'::('w'::('_'::('d'::('a'::('t'::('a'::('_'::('a'::('r'::('r'::('a'::('y'::[])))))))))))))) :: (('t'::[]) :: (('h'::('a'::('n'::('k'::('e'::('l'::('_'::('a'::('r'::('r'::('a'::('y'::[])))))))))))) :: (('k'::[]) :: (('t'::('_'::('s'::('t'::('a'::('r'::('t'::[]))))))) :: (('m'::('a'::('x'::('i'::[])))) :: (('i'::[]) :: (('i'::('_'::('s'::('t'::('a'::('r'::('t'::[]))))))) :: (('l'::('b'::('o'::('u'::('n'::('d'::[])))))) :: (('r'::('b'::('o'::('u'::('n'::('d'::[])))))) :: (('i'::('_'::('s'::('t'::('o'::('p'::[])))))) :: (('v'::[]) :: (('c'::('h'::('e'::('c'::('k'::('n'::('a'::('n'::[])))))))) :: (('n'::[]) :: (('j'::[]) :: (('t'::('o'::('t'::('a'::('l'::[]))))) :: []))))))))))))))))))))));
+    fbody =
+    (seq ((SAssign (('T'::[]), (ELen
+      ('t'::('i'::('m'::('e'::('_'::('a'::('r'::('r'::('a'::('y'::[]))))))))))))) :: ((SAssign
+      (('N'::[]), (ECols
+      ('c'::('o'::('u'::('n'::('t'::('_'::('a'::('r'::('r'::('a'::('y'::[])))))))))))))) :: ((SAssign
+      (('N'::('_'::('e'::('p'::('o'::('c'::('h'::('s'::[])))))))), (ELen
+      ('s'::('t'::('a'::('r'::('t'::('s'::[]))))))))) :: ((SCall (O, ((TVar
+      ('i'::('d'::('x'::[])))) :: ((TVar
+      ('c'::('o'::('u'::('n'::('t'::[])))))) :: [])),
+      ('j'::('i'::('t'::('r'::('e'::('s'::('t'::('r'::('i'::('c'::('t'::('_'::('w'::('i'::('t'::('h'::('_'::('c'::('o'::('u'::('n'::('t'::[])))))))))))))))))))))),
+      ((AVar
+      ('t'::('i'::('m'::('e'::('_'::('t'::('a'::('r'::('g'::('e'::('t'::('_'::('a'::('r'::('r'::('a'::('y'::[])))))))))))))))))) :: ((AVar
+      ('s'::('t'::('a'::('r'::('t'::('s'::[]))))))) :: ((AVar
+      ('e'::('n'::('d'::('s'::[]))))) :: []))))) :: ((SGather (O,
+      ('t'::('i'::('m'::('e'::('_'::('t'::('a'::('r'::('g'::('e'::('t'::('_'::('a'::('r'::('r'::('a'::('y'::[]))))))))))))))))),
+      ('t'::('i'::('m'::('e'::('_'::('t'::('a'::('r'::('g'::('e'::('t'::('_'::('a'::('r'::('r'::('a'::('y'::[]))))))))))))))))),
+      ('i'::('d'::('x'::[]))))) :: ((SGather ((S O),
+      ('d'::('a'::('t'::('a'::('_'::('t'::('a'::('r'::('g'::('e'::('t'::('_'::('a'::('r'::('r'::('a'::('y'::[]))))))))))))))))),
+      ('d'::('a'::('t'::('a'::('_'::('t'::('a'::('r'::('g'::('e'::('t'::('_'::('a'::('r'::('r'::('a'::('y'::[]))))))))))))))))),
+      ('i'::('d'::('x'::[]))))) :: ((SCumsum
+      (('m'::('a'::('x'::('_'::('c'::('o'::('u'::('n'::('t'::[]))))))))),
+      ('c'::('o'::('u'::('n'::('t'::[]))))))) :: ((SNew2
+      (('n'::('e'::('w'::('_'::('d'::('a'::('t'::('a'::('_'::('a'::('r'::('r'::('a'::('y'::[])))))))))))))),
+      DFlt, (EBin (Add, (EUn (ToInt, (ESumAll
+      ('w'::('i'::('n'::('d'::('o'::('w'::('s'::[])))))))))), (EInt (Zpos
+      XH)))), (ECols
+      ('c'::('o'::('u'::('n'::('t'::('_'::('a'::('r'::('r'::('a'::('y'::[])))))))))))),
+      (EFlt { qnum = Z0; qden = XH }))) :: ((SAssign (('t'::[]), (EInt
+      Z0))) :: ((SNew1
+      (('h'::('a'::('n'::('k'::('e'::('l'::('_'::('a'::('r'::('r'::('a'::('y'::[])))))))))))),
+      DFlt, (ELen
+      ('n'::('e'::('w'::('_'::('d'::('a'::('t'::('a'::('_'::('a'::('r'::('r'::('a'::('y'::[]))))))))))))))),
+      (EInt Z0))) :: ((SFor ((S O), ('k'::[]), (EInt Z0), (EVar
+      ('N'::('_'::('e'::('p'::('o'::('c'::('h'::('s'::[]))))))))),
+      (seq ((SIf ((S (S O)), (ECmp (Gt0, (ERead1 ((S (S O)),
+        ('c'::('o'::('u'::('n'::('t'::[]))))), (EVar ('k'::[])))), (EInt
+        Z0))),
+        (seq ((SAssign (('t'::('_'::('s'::('t'::('a'::('r'::('t'::[]))))))),
+          (EVar ('t'::[])))) :: ((SAssign (('m'::('a'::('x'::('i'::[])))),
+          (ERead1 ((S (S (S O))),
+          ('m'::('a'::('x'::('_'::('c'::('o'::('u'::('n'::('t'::[]))))))))),
+          (EVar ('k'::[])))))) :: ((SAssign (('i'::[]), (EBin (Sub, (EVar
+          ('m'::('a'::('x'::('i'::[]))))), (ERead1 ((S (S (S (S O)))),
+          ('c'::('o'::('u'::('n'::('t'::[]))))), (EVar
+          ('k'::[])))))))) :: ((SAssign
+          (('i'::('_'::('s'::('t'::('a'::('r'::('t'::[]))))))), (EVar
+          ('i'::[])))) :: ((SWhile ((S (S (S O))), (ECmp (Lt0, (EVar
+          ('t'::[])), (EVar ('T'::[])))),
+          (seq ((SAssign (('l'::('b'::('o'::('u'::('n'::('d'::[])))))),
+            (ERead1 ((S (S (S (S (S O))))),
+            ('t'::('i'::('m'::('e'::('_'::('a'::('r'::('r'::('a'::('y'::[])))))))))),
+            (EVar ('t'::[])))))) :: ((SAssign
+            (('r'::('b'::('o'::('u'::('n'::('d'::[])))))), (EUn (Round9,
+            (EBin (Add, (EVar ('l'::('b'::('o'::('u'::('n'::('d'::[]))))))),
+            (EVar
+            ('b'::('i'::('n'::('s'::('i'::('z'::('e'::[])))))))))))))) :: ((SIf
+            ((S (S (S (S O)))), (ECmp (Lt0, (ERead1 ((S (S (S (S (S (S
+            O)))))),
+            ('t'::('i'::('m'::('e'::('_'::('t'::('a'::('r'::('g'::('e'::('t'::('_'::('a'::('r'::('r'::('a'::('y'::[]))))))))))))))))),
+            (EVar ('i'::[])))), (EVar
+            ('r'::('b'::('o'::('u'::('n'::('d'::[]))))))))),
+            (seq ((SAssign
+              (('i'::('_'::('s'::('t'::('a'::('r'::('t'::[]))))))), (EVar
+              ('i'::[])))) :: ((SAssign
+              (('i'::('_'::('s'::('t'::('o'::('p'::[])))))), (EVar
+              ('i'::[])))) :: ((SWhile ((S (S (S (S (S O))))), (ECmp (Lt0,
+              (EVar ('i'::('_'::('s'::('t'::('o'::('p'::[]))))))), (EVar
+              ('m'::('a'::('x'::('i'::[]))))))),
+              (seq ((SIf ((S (S (S (S (S (S O)))))), (ECmp (Lt0, (ERead1 ((S
+                (S (S (S (S (S (S O))))))),
+                ('t'::('i'::('m'::('e'::('_'::('t'::('a'::('r'::('g'::('e'::('t'::('_'::('a'::('r'::('r'::('a'::('y'::[]))))))))))))))))),
+                (EVar ('i'::('_'::('s'::('t'::('o'::('p'::[]))))))))), (EVar
+                ('r'::('b'::('o'::('u'::('n'::('d'::[]))))))))),
+                (seq ((SAssign (('i'::('_'::('s'::('t'::('o'::('p'::[])))))),
+                  (EBin (Add, (EVar
+                  ('i'::('_'::('s'::('t'::('o'::('p'::[]))))))), (EInt (Zpos
+                  XH)))))) :: [])), (seq (SBreak :: [])))) :: [])))) :: ((SWhile
+              ((S (S (S (S (S (S (S O))))))), (ECmp (Lt0, (EVar
+              ('i'::('_'::('s'::('t'::('a'::('r'::('t'::[])))))))), (EBin
+              (Sub, (EVar ('i'::('_'::('s'::('t'::('o'::('p'::[]))))))),
+              (EInt (Zpos XH)))))),
+              (seq ((SIf ((S (S (S (S (S (S (S (S O)))))))), (ECmp (Lt0,
+                (ERead1 ((S (S (S (S (S (S (S (S O)))))))),
+                ('t'::('i'::('m'::('e'::('_'::('t'::('a'::('r'::('g'::('e'::('t'::('_'::('a'::('r'::('r'::('a'::('y'::[]))))))))))))))))),
+                (EVar ('i'::('_'::('s'::('t'::('a'::('r'::('t'::[])))))))))),
+                (EVar ('l'::('b'::('o'::('u'::('n'::('d'::[]))))))))),
+                (seq ((SAssign
+                  (('i'::('_'::('s'::('t'::('a'::('r'::('t'::[]))))))), (EBin
+                  (Add, (EVar
+                  ('i'::('_'::('s'::('t'::('a'::('r'::('t'::[])))))))), (EInt
+                  (Zpos XH)))))) :: [])), (seq (SBreak :: [])))) :: [])))) :: ((SAssign
+              (('v'::[]), (EBin (Div, (ESum
+              (('d'::('a'::('t'::('a'::('_'::('t'::('a'::('r'::('g'::('e'::('t'::('_'::('a'::('r'::('r'::('a'::('y'::[]))))))))))))))))),
+              (EVar ('i'::('_'::('s'::('t'::('a'::('r'::('t'::[])))))))),
+              (EVar ('i'::('_'::('s'::('t'::('o'::('p'::[]))))))))), (EUn
+              (ToFlt, (EBin (Sub, (EVar
+              ('i'::('_'::('s'::('t'::('o'::('p'::[]))))))), (EVar
+              ('i'::('_'::('s'::('t'::('a'::('r'::('t'::[])))))))))))))))) :: ((SAssign
+              (('c'::('h'::('e'::('c'::('k'::('n'::('a'::('n'::[])))))))),
+              (EVar ('v'::[])))) :: ((SIf ((S (S (S (S (S (S (S (S (S
+              O))))))))), (ENot (EUn (IsNan, (EVar
+              ('c'::('h'::('e'::('c'::('k'::('n'::('a'::('n'::[])))))))))))),
+              (seq ((SStore1 ((S (S (S (S (S (S (S (S (S O))))))))),
+                ('h'::('a'::('n'::('k'::('e'::('l'::('_'::('a'::('r'::('r'::('a'::('y'::[])))))))))))),
+                (EBin (Sub, (ELen
+                ('h'::('a'::('n'::('k'::('e'::('l'::('_'::('a'::('r'::('r'::('a'::('y'::[]))))))))))))),
+                (EInt (Zpos XH)))), (EVar ('v'::[])))) :: [])),
+              SSkip)) :: [])))))))), SSkip)) :: ((SIf ((S (S (S (S (S (S (S
+            (S (S (S O)))))))))), (ECmp (Ge, (EBin (Sub, (EVar ('t'::[])),
+            (EVar ('t'::('_'::('s'::('t'::('a'::('r'::('t'::[])))))))))),
+            (ERead1 ((S (S (S (S (S (S (S (S (S (S O)))))))))),
+            ('w'::('i'::('n'::('d'::('o'::('w'::('s'::[]))))))), (EInt (Zpos
+            XH)))))),
+            (seq ((SFor ((S (S (S (S (S (S (S (S (S (S (S O))))))))))),
+              ('n'::[]), (EInt Z0), (EVar ('N'::[])),
+              (seq ((SColUpd ((S (S (S (S (S (S (S (S (S (S (S (S (S
+                O))))))))))))),
+                ('n'::('e'::('w'::('_'::('d'::('a'::('t'::('a'::('_'::('a'::('r'::('r'::('a'::('y'::[])))))))))))))),
+                (EVar ('n'::[])), Add, (Some
+                ('h'::('a'::('n'::('k'::('e'::('l'::('_'::('a'::('r'::('r'::('a'::('y'::[]))))))))))))),
+                (ERead2 ((S (S (S (S (S (S (S (S (S (S (S O))))))))))),
+                ('c'::('o'::('u'::('n'::('t'::('_'::('a'::('r'::('r'::('a'::('y'::[]))))))))))),
+                (EBin (Sub, (EVar ('t'::[])), (ERead1 ((S (S (S (S (S (S (S
+                (S (S (S (S (S O)))))))))))),
+                ('w'::('i'::('n'::('d'::('o'::('w'::('s'::[]))))))), (EInt
+                (Zpos XH)))))), (EVar ('n'::[])))))) :: [])))) :: [])),
+            SSkip)) :: ((SShiftLeft
+            ('h'::('a'::('n'::('k'::('e'::('l'::('_'::('a'::('r'::('r'::('a'::('y'::[]))))))))))))) :: ((SStore1
+            ((S (S (S (S (S (S (S (S (S (S (S (S (S (S O)))))))))))))),
+            ('h'::('a'::('n'::('k'::('e'::('l'::('_'::('a'::('r'::('r'::('a'::('y'::[])))))))))))),
+            (EBin (Sub, (ELen
+            ('h'::('a'::('n'::('k'::('e'::('l'::('_'::('a'::('r'::('r'::('a'::('y'::[]))))))))))))),
+            (EInt (Zpos XH)))), (EFlt { qnum = Z0; qden =
+            XH }))) :: ((SAssign (('t'::[]), (EBin (Add, (EVar ('t'::[])),
+            (EInt (Zpos XH)))))) :: ((SAssign (('i'::[]), (EVar
+            ('i'::('_'::('s'::('t'::('a'::('r'::('t'::[])))))))))) :: ((SIf
+            ((S (S (S (S (S (S (S (S (S (S (S (S O)))))))))))), (EOr ((ECmp
+            (Eq0, (EVar ('t'::[])), (EVar ('T'::[])))), (ECmp (Gt0, (ERead1
+            ((S (S (S (S (S (S (S (S (S (S (S (S (S (S (S O))))))))))))))),
+            ('t'::('i'::('m'::('e'::('_'::('a'::('r'::('r'::('a'::('y'::[])))))))))),
+            (EVar ('t'::[])))), (ERead1 ((S (S (S (S (S (S (S (S (S (S (S (S
+            (S (S (S (S O)))))))))))))))), ('e'::('n'::('d'::('s'::[])))),
+            (EVar ('k'::[])))))))),
+            (seq ((SIf ((S (S (S (S (S (S (S (S (S (S (S (S (S
+              O))))))))))))), (ECmp (Gt0, (EBin (Sub, (EVar ('t'::[])), (EVar
+              ('t'::('_'::('s'::('t'::('a'::('r'::('t'::[])))))))))), (ERead1
+              ((S (S (S (S (S (S (S (S (S (S (S (S (S (S (S (S (S
+              O))))))))))))))))),
+              ('w'::('i'::('n'::('d'::('o'::('w'::('s'::[]))))))), (EInt
+              (Zpos XH)))))),
+              (seq ((SFor ((S (S (S (S (S (S (S (S (S (S (S (S (S (S
+                O)))))))))))))), ('j'::[]), (EInt Z0), (ERead1 ((S (S (S (S
+                (S (S (S (S (S (S (S (S (S (S (S (S (S (S
+                O)))))))))))))))))),
+                ('w'::('i'::('n'::('d'::('o'::('w'::('s'::[]))))))), (EInt
+                (Zpos XH)))),
+                (seq ((SFor ((S (S (S (S (S (S (S (S (S (S (S (S (S (S (S
+                  O))))))))))))))), ('n'::[]), (EInt Z0), (EVar ('N'::[])),
+                  (seq ((SColUpd ((S (S (S (S (S (S (S (S (S (S (S (S (S (S
+                    (S (S (S (S (S (S (S O))))))))))))))))))))),
+                    ('n'::('e'::('w'::('_'::('d'::('a'::('t'::('a'::('_'::('a'::('r'::('r'::('a'::('y'::[])))))))))))))),
+                    (EVar ('n'::[])), Add, (Some
+                    ('h'::('a'::('n'::('k'::('e'::('l'::('_'::('a'::('r'::('r'::('a'::('y'::[]))))))))))))),
+                    (ERead2 ((S (S (S (S (S (S (S (S (S (S (S (S (S (S (S (S
+                    (S (S (S O))))))))))))))))))),
+                    ('c'::('o'::('u'::('n'::('t'::('_'::('a'::('r'::('r'::('a'::('y'::[]))))))))))),
+                    (EBin (Add, (EBin (Sub, (EVar ('t'::[])), (ERead1 ((S (S
+                    (S (S (S (S (S (S (S (S (S (S (S (S (S (S (S (S (S (S
+                    O)))))))))))))))))))),
+                    ('w'::('i'::('n'::('d'::('o'::('w'::('s'::[]))))))),
+                    (EInt (Zpos XH)))))), (EVar ('j'::[])))), (EVar
+                    ('n'::[])))))) :: [])))) :: ((SShiftLeft
+                  ('h'::('a'::('n'::('k'::('e'::('l'::('_'::('a'::('r'::('r'::('a'::('y'::[]))))))))))))) :: ((SStore1
+                  ((S (S (S (S (S (S (S (S (S (S (S (S (S (S (S (S (S (S (S
+                  (S (S (S O)))))))))))))))))))))),
+                  ('h'::('a'::('n'::('k'::('e'::('l'::('_'::('a'::('r'::('r'::('a'::('y'::[])))))))))))),
+                  (EBin (Sub, (ELen
+                  ('h'::('a'::('n'::('k'::('e'::('l'::('_'::('a'::('r'::('r'::('a'::('y'::[]))))))))))))),
+                  (EInt (Zpos XH)))), (EFlt { qnum = Z0; qden =
+                  XH }))) :: [])))))) :: [])), SSkip)) :: ((SArrScale
+              (('h'::('a'::('n'::('k'::('e'::('l'::('_'::('a'::('r'::('r'::('a'::('y'::[])))))))))))),
+              (EFlt { qnum = Z0; qden = XH }))) :: (SBreak :: [])))),
+            SSkip)) :: [])))))))))))) :: [])))))), SSkip)) :: [])))) :: ((SColSums
+      (('t'::('o'::('t'::('a'::('l'::[]))))),
+      ('c'::('o'::('u'::('n'::('t'::('_'::('a'::('r'::('r'::('a'::('y'::[]))))))))))))) :: ((SFor
+      ((S (S (S (S (S (S (S (S (S (S (S (S (S (S (S (S O)))))))))))))))),
+      ('n'::[]), (EInt Z0), (EVar ('N'::[])),
+      (seq ((SIf ((S (S (S (S (S (S (S (S (S (S (S (S (S (S (S (S (S
+        O))))))))))))))))), (ECmp (Gt0, (ERead1 ((S (S (S (S (S (S (S (S (S
+        (S (S (S (S (S (S (S (S (S (S (S (S (S (S O))))))))))))))))))))))),
+        ('t'::('o'::('t'::('a'::('l'::[]))))), (EVar ('n'::[])))), (EFlt
+        { qnum = Z0; qden = XH }))),
+        (seq ((SColUpd ((S (S (S (S (S (S (S (S (S (S (S (S (S (S (S (S (S (S
+          (S (S (S (S (S (S (S O))))))))))))))))))))))))),
+          ('n'::('e'::('w'::('_'::('d'::('a'::('t'::('a'::('_'::('a'::('r'::('r'::('a'::('y'::[])))))))))))))),
+          (EVar ('n'::[])), Div, None, (ERead1 ((S (S (S (S (S (S (S (S (S (S
+          (S (S (S (S (S (S (S (S (S (S (S (S (S (S
+          O)))))))))))))))))))))))), ('t'::('o'::('t'::('a'::('l'::[]))))),
+          (EVar ('n'::[])))))) :: [])), SSkip)) :: [])))) :: ((SReturn ((AVar
+      ('n'::('e'::('w'::('_'::('d'::('a'::('t'::('a'::('_'::('a'::('r'::('r'::('a'::('y'::[]))))))))))))))) :: [])) :: []))))))))))))))) }
+
 (** val k__cross_correlogram : func **)
 
 let k__cross_correlogram =
@@ -3416,7 +3720,7 @@ let k__overlap_split =
 (** val all_kernels : func list **)
 
 let all_kernels =
-  k_jitrestrict :: (k_jitrestrict_with_count :: (k_jitvaluefrom :: (k_jitcount :: (k_jitin_interval :: (k_jitremove_nan :: (k_jitthreshold :: (k__jitbin_array :: (k_jitintersect :: (k_jitunion :: (k_jitdiff :: (k_jitunion_isets :: (k__jitfix_iset :: (k__jitcontinuous_perievent :: (k__cross_correlogram :: (k__overlap_split :: [])))))))))))))))
+  k_jitrestrict :: (k_jitrestrict_with_count :: (k_jitvaluefrom :: (k_jitcount :: (k_jitin_interval :: (k_jitremove_nan :: (k_jitthreshold :: (k__jitbin_array :: (k_jitintersect :: (k_jitunion :: (k_jitdiff :: (k_jitunion_isets :: (k__jitfix_iset :: (k__jitcontinuous_perievent :: (k__jitperievent_trigger_average :: (k__cross_correlogram :: (k__overlap_split :: []))))))))))))))))
 
 (** val run0 : nat -> func -> value list -> outcome **)
 
